@@ -175,6 +175,10 @@ def generate(rng, tier):
             if rng.random() < 0.2:
                 # the thread first derives a fresh connection from the chosen one and sends through that
                 op["derive"] = rng.choice(["plain", "prefix", "mcaller"])
+            if rng.random() < 0.06:
+                # the thread first attaches one more (do-nothing) adapter to the chosen connection with the public
+                # add_adapter(): the connection, and all derived from it before and after, keep their one sequence
+                op["late_adapter"] = True
             ops.append(op)
             k += 1
     rng.shuffle(ops)
@@ -316,6 +320,8 @@ def caller_id(op):
 
 def do_request(objs, spec, op):
     w = objs[op["w"] % len(objs)]
+    if op.get("late_adapter"):
+        (w.http_conn if hasattr(w, "http_conn") else w).add_adapter(hw.conn_http.RequestAdapter())
     if op.get("hdr_shared") is not None and op.get("own_id") is None and not op.get("derive"):
         shared = _SHARED_HEADERS.setdefault(op["hdr_shared"], {"X-Shared": f"s{op['hdr_shared']}"})
         kw = {"headers": shared}
